@@ -16,7 +16,7 @@ import vlib
 
 LEVEL = "model_checking"
 
-ALPHA = ["a", "x=1", "!", "{", "}", "for", "case", "esac", "in", "if", "elif", "then", "else", "fi", "while", "until",
+ALPHA = ["a", "a$b", "x=1", "!", "{", "}", "for", "case", "esac", "in", "if", "elif", "then", "else", "fi", "while", "until",
          "do", "done", ";", "&", "&&", "||", "|", ";;", "(", ")", "\n", ">", "2>", "((1))"]
 BROKEN = ["'u", "\"u", "${u", "$(u", "$((u", "`u", "((1) ))", "((1)", "$((1) ))", "${u:", "${u:-'}", "\"$(u\"", "\"${u\"", "${", "${}"]
 
@@ -25,9 +25,16 @@ def tla_seq(xs):
     return "<<" + ", ".join('"' + x.replace("\\", "\\\\").replace('"', '\\"').replace("\n", "\\n") + '"' for x in xs) + ">>"
 
 
-def gen(R, maxlen, mutations, simulate=None, name="rec"):
+BASES = ["for a in a ; do a ; done", "for a do a ; done", "for a \n in a a \n do a \n done", "if a ; then a ; elif a ; then a ; else a ; fi",
+         "while a ; do a ; done", "until a \n do a \n done > a", "case a in a ) a ;; esac", "case a in ( a | a ) a ;; a ) esac",
+         "a ( ) { a ; }", "{ a ; } > a", "( a ) | ! a && a", "x=1 a > a 2> a &", "((1)) ; a", "! a | a || { a ; }", "if a ; then ( a ) fi"]
+
+
+def gen(R, maxlen, mutations, simulate=None, name="rec", bases=None):
     defs = "MCAlpha == %s\nMCBroken == %s\n" % (tla_seq(ALPHA), tla_seq(BROKEN))
-    cfg = ("INIT Init\nNEXT Next\nINVARIANT Emit\nCONSTANTS\n Alpha <- MCAlpha\n Broken <- MCBroken\n MaxLen = %d\n Mutations = %s\n"
+    if bases:
+        defs += "MCInit == toks \\in {%s}\n" % ", ".join(tla_seq(["\n" if t == "\\n" else t for t in b.split(" ")]) for b in bases)
+    cfg = (("INIT MCInit\nNEXT Stutter\n" if bases else "INIT Init\nNEXT Next\n") + "INVARIANT Emit\nCONSTANTS\n Alpha <- MCAlpha\n Broken <- MCBroken\n MaxLen = %d\n Mutations = %s\n"
            % (maxlen, "TRUE" if mutations else "FALSE"))
     if simulate:
         res = R.tlc("ShellRecGen", cfg, defs=defs, simulate="num=%d" % simulate, depth=maxlen + 2, workers=8, name=name, timeout=3000)
@@ -82,7 +89,7 @@ def check(R, cases, name):
 def run(R):
     R.rule = ("cases = token strings classified by ShellRec.tla: every viable prefix up to MaxLen tokens (30-token alphabet: words, "
               "assignment, all reserved words, all control operators, newline, redirections, (( ))) extended by one more token or by a "
-              "broken word; plus long accepted strings with all single-token deletions / duplications / swaps / insertions; "
+              "broken word; plus long accepted strings with all single-token deletions / duplications / swaps / insertions / substitutions, and the same mutations of 15 base programs (one per compound construct); "
               "distinct_nontrivial = distinct rejected or incomplete strings whose first offending token is not the first token")
     R.assumptions = ["ShellRec.tla's reading of XCU 2.10 (cross-validated at design time against dash -n and bash -n on all strings of "
                      "<= 3 tokens, and against the parser on 7 M strings: design-notes/)",
@@ -91,9 +98,11 @@ def run(R):
     if R.tier == "quick":
         cases = gen(R, 4, False, name="recbfs4")
         mut = gen(R, 9, True, simulate=60, name="recmut")
+        mut += gen(R, 20, True, name="recbases", bases=BASES)
     else:
         cases = gen(R, 5, False, name="recbfs5")
         mut = gen(R, 12, True, simulate=1500, name="recmut")
+        mut += gen(R, 20, True, name="recbases", bases=BASES)
     # unterminated here-documents (outside the token alphabet of ShellRec): must be rejected
     for src in ("cat <<E", "cat <<E; a", "a $(cat <<E)\n", "cat <<E\n", "cat <<E\nx", "cat <<E <<F\nx\nE\n", "{ cat <<E\n}"):
         cases.append(dict(toks=[src], kind="heredoc", cls="broken", n=1, src=src, starts=[[1, 1]], offs=[0],
